@@ -410,3 +410,10 @@ package protocol
 //@   at call copy#1 assert C14.kv.keylen: implies(len(key) < 0x100000000 && i >= 4 && i < 0x4000000000000000, buf[i-4] + buf[i-3]*256 + buf[i-2]*65536 + buf[i-1]*16777216 == len(key))
 //@   at call copy#2 assert C14.kv.valuelen: implies(len(value) < 0x100000000 && i >= 4 && i < 0x4000000000000000, buf[i-4] + buf[i-3]*256 + buf[i-2]*65536 + buf[i-1]*16777216 == len(value))
 
+
+// C15: GET answers "no value" ($-1) for a plain string register only when the key holds no value at all (a frame of
+// header length); an empty string is a value ($0)
+//@ func (*TextCommandConverter).WriteTextGetCommandResult
+//@   requires lockCommandResult != nil
+//@   at call WriteBytes#2 assert C15.get.novalue: len(lockResultCommandData.Data) <= 6
+//@   at call WriteBytes#1 assert C15.get.value: len(lockResultCommandData.Data) > 6
